@@ -88,9 +88,9 @@ def replay_witness(w):
 
 
 def write_replay(prop, kind, payload):
-    os.makedirs(os.path.join(ROOT, 'replay'), exist_ok=True)
+    os.makedirs(os.path.join(ROOT, os.environ.get('PYVC_REPLAY_DIR', 'replay')), exist_ok=True)
     h = hashlib.sha256(json.dumps(payload, sort_keys=True, default=str).encode()).hexdigest()[:10]
-    path = os.path.join(ROOT, 'replay', '%s-%s-%s.json' % (prop, kind, h))
+    path = os.path.join(ROOT, os.environ.get('PYVC_REPLAY_DIR', 'replay'), '%s-%s-%s.json' % (prop, kind, h))
     with open(path, 'w') as f:
         json.dump(dict(payload, property=prop, kind=kind), f, indent=1, default=str)
     return os.path.relpath(path, ROOT)
@@ -267,8 +267,9 @@ def main():
     ev = {'property_id': prop, 'tier': a.tier, 'seed': seed, 'level': level_out, 'coverage': coverage,
           'assumptions': registry.ASSUMPTIONS + P.get('assumptions', []), 'wall_s': round(time.time() - t0, 2),
           'violations': nviol}
-    os.makedirs(os.path.join(ROOT, 'evidence'), exist_ok=True)
-    with open(os.path.join(ROOT, 'evidence', prop + '.json'), 'w') as f:
+    evdir = os.environ.get('PYVC_EVIDENCE_DIR') or os.path.join(ROOT, 'evidence')
+    os.makedirs(evdir, exist_ok=True)
+    with open(os.path.join(evdir, prop + '.json'), 'w') as f:
         json.dump(ev, f, indent=1, default=str)
     print('%s: %d/%d obligations discharged, %d undecided, %d known findings, %d violations, stand-ins: %s  [%.1fs]' % (
         prop, n_dis, n_obl, len(undecided) + len(n_unknown), len(known_hits), nviol,
